@@ -35,9 +35,6 @@ Section MapOptR.
 End MapOptR.
 Arguments omap {A B}.
 
-Definition is_builtin_name (n : name) : bool :=
-  bytes_eqb n n_Int || bytes_eqb n n_Float || bytes_eqb n n_String || bytes_eqb n n_Boolean || bytes_eqb n n_ID.
-
 Definition otext (o : option text) : text := match o with Some t => t | None => [] end.
 Definition olist' {A} (o : option (list A)) : list A := match o with Some l => l | None => [] end.
 
